@@ -23,6 +23,12 @@ theorem fract_one_iff (x : UInt32) (h : isFinite x = true) :
 theorem fract_int (x : UInt32) (h : isInt x = true) : fract x = fZero := by c11_bv
 theorem fract_nonfinite (x : UInt32) (h : isFinite x = false) : isNaN (fract x) = true := by c11_bv
 
+/-! ### modf: the parts recombine exactly and carry the sign of x -/
+theorem modf_spec (x : UInt32) (h : isFinite x = true) :
+    isInt (modfInt x) = true ∧ lt (mag (modfFrac x)) fOne = true ∧
+    feq (fadd (modfInt x) (modfFrac x)) x = true ∧
+    signBit (modfInt x) = signBit x ∧ signBit (modfFrac x) = signBit x := by c11_bv
+
 /-! ### iround / uround (fixed): the nearest integer, whenever the argument is in the documented
 domain `x ≥ 0` and the result is representable -/
 /-- |x − n| in units of 2^-24, for an integer n -/
